@@ -109,7 +109,7 @@ func runStore(c storeCase) storeObs {
 			case "p:=":
 				st.Obs.Res, st.Obs.Intact = expandRes(env, ast.Word{&ast.Lit{Value: "p"}, &ast.ParamExp{Braces: true, Name: &ast.Lit{Value: op.N}, Op: ":=",
 					Word: ast.Word{&ast.Lit{Value: op.V}}}})
-			case ":-s", "-s":
+			case ":-s", "-s", ":+s", "+s":
 				st.Obs.Res, st.Obs.Intact = expandRes(env, ast.Word{&ast.ParamExp{Braces: true, Name: &ast.Lit{Value: op.N}, Op: op.Op[:len(op.Op)-1],
 					Word: ast.Word{&ast.ParamExp{Braces: true, Name: &ast.Lit{Value: "_y"}, Op: ":=", Word: ast.Word{&ast.Lit{Value: "s"}}}}}})
 			case ":=", "=", ":?", "?", "%", "%%", "#", "##":
